@@ -144,10 +144,20 @@ CharLitType(l, lang, P) ==
   IF l.prefix = <<>> THEN (IF Len(l.elems) > 1 \/ lang = "c" THEN "int" ELSE "char")
   ELSE CharLitUnit(l.prefix, lang, P)
 
+\* an octal escape takes up to three octal digits, a hexadecimal one every following hex digit (6.4.4.4p7): an
+\* element sequence is the literal's own decomposition only if no escape runs on into the next character
+IsHexDigitCh(c) == c \in {"0", "1", "2", "3", "4", "5", "6", "7", "8", "9", "a", "b", "c", "d", "e", "f", "A", "B", "C", "D", "E", "F"}
+IsOctDigitCh(c) == c \in {"0", "1", "2", "3", "4", "5", "6", "7"}
+NoRunOn(es) ==
+  \A i \in 1..(Len(es) - 1) :
+     /\ ~(es[i].k = "hex" /\ es[i + 1].k = "ch" /\ IsHexDigitCh(es[i + 1].c))
+     /\ ~(es[i].k = "oct" /\ Len(es[i].ds) < 3 /\ es[i + 1].k = "ch" /\ IsOctDigitCh(es[i + 1].c))
+
 \* an escape must be in the range of the unsigned version of the unit type (6.4.4.4p9)
 CharLitWellFormed(l, lang, P) ==
   LET w == Bits(CharLitUnit(l.prefix, lang, P), P)
   IN  /\ Len(l.elems) >= 1
+      /\ NoRunOn(l.elems)
       /\ (l.prefix # <<>> => Len(l.elems) = 1)
       /\ Len(l.elems) <= 4
       /\ \A i \in 1..Len(l.elems) : NBits(ElemCode(l.elems[i])) <= w
